@@ -587,12 +587,17 @@ func finisherSet(p *Program) map[*ssa.Function]bool {
 
 // checkC05Errors: repo-specific error discipline.
 func checkC05Errors(c *Ctx, eff map[*ssa.Function]string) {
-	p := c.P
 	r := c.Rule("C05.errors", "errors of driver calls, Rows.Scan/Close/Err, hooks, save-point dialector calls and nested finishers reach AddError / an Error field / a returned error", 40)
 	r.Exempt("gorm.(*DB).Transaction$rollback", "best-effort Rollback/RollbackTo in Transaction's deferred closure: the original error or panic is what propagates")
 	r.Exempt("callbacks.CommitOrRollbackTransaction$finish", "Commit/Rollback on the operation's own handle record their error into that handle (AddError on the receiver)")
 	r.Exempt("gorm.(*DB).Connection$close", "deferred conn.Close() after the user function: its error cannot change the outcome of the block")
 	r.Exempt("gorm.Open$close", "closing the pool after Initialize failed: the initialisation error is what is reported")
+	checkErrorFlow(c, r, nil)
+}
+
+// checkErrorFlow is the error-discipline rule; only (when non-nil) restricts it to the named root functions.
+func checkErrorFlow(c *Ctx, r *Rule, only map[string]bool) {
+	p := c.P
 	dbT := p.Named(pkgGorm, "DB")
 	assocT := p.Named(pkgGorm, "Association")
 	errF := p.Field(dbT, "Error")
@@ -738,6 +743,9 @@ func checkC05Errors(c *Ctx, eff map[*ssa.Function]string) {
 		}
 		pp := root.Pkg.Pkg.Path()
 		if pp != pkgGorm && pp != pkgCallbacks {
+			continue
+		}
+		if only != nil && !only[ssaFuncName(root)] {
 			continue
 		}
 		forEachInstrFlat(fn, func(in ssa.Instruction) {
